@@ -170,7 +170,7 @@ func (q *workQueue) finish(newItems [][]int8) {
 }
 
 // Explore runs all paths of one harness entry.
-func Explore(w *World, entry string, bounds map[string]int, workers int, solverKind string) *HarnessResult {
+func Explore(w *World, entry string, bounds map[string]int, workers int, solverKind string, prop ...string) *HarnessResult {
 	t0 := time.Now()
 	total := newHarnessResult(entry, bounds)
 	fn := w.findFunc(entry)
@@ -196,6 +196,9 @@ func Explore(w *World, entry string, bounds map[string]int, workers int, solverK
 			}
 			defer s.Close()
 			ex := &Exec{w: w, solver: s, entry: fn, bounds: bounds, res: res}
+			if len(prop) > 0 {
+				ex.prop = prop[0]
+			}
 			for {
 				prefix, ok := q.pop()
 				if !ok {
@@ -526,6 +529,11 @@ func (ex *Exec) checkOne(a pendingAssert) {
 		ex.res.Inconclusive("solver unknown on assertion " + label)
 	}
 	ex.solver.send("(pop 1)")
+	if r == "sat" && ex.prop != "" && !labelHas(label, ex.prop) {
+		// an obligation of another property failed: do not assume it, so that it cannot mask an
+		// obligation of the property being checked further down this path
+		return
+	}
 	if r == "sat" {
 		// continue under the assumption that the assertion held, to look for further failures
 		ex.trace[a.slot] = 6
